@@ -1,7 +1,9 @@
 mod gen;
+mod gen2;
 mod genmsg;
 mod ops3;
 mod ops4;
+mod ops5;
 mod ops;
 mod ops2;
 mod oracles;
